@@ -771,6 +771,8 @@ func c18Run(c *core.Ctx) {
 				kind = "command"
 			}
 			msg(c18Msg{Kind: kind, PTI: 1, Subs: []uSub{{208, 93, []uIns{{Upsc: 9, Parts: []uPart{{1, l}}}}}}, Classmark: -1})
+			// the same sizes with the optional classmark behind the list (what follows a list of every length)
+			msg(c18Msg{Kind: "command", PTI: 1, Subs: []uSub{{208, 93, []uIns{{Upsc: 9, Parts: []uPart{{1, l}}}}}}, Classmark: l % 2})
 			if l <= 300 {
 				msg(c18Msg{Kind: "list", Subs: []uSub{{208, 93, []uIns{{Upsc: 9, Parts: []uPart{{2, 3}, {1, l}}}, {Upsc: 10, Parts: []uPart{{1, l}}}}}}, Classmark: -1})
 			}
